@@ -26,7 +26,7 @@ use fuel_types::{ContractId, Word};
 
 macro_rules! vmod {
     ($name:ident, $file:literal) => {
-        #[allow(dead_code, unused_imports, unused_variables, unused_mut, clippy::all)]
+        #[allow(dead_code, unused_imports, unused_variables, unused_mut, unsafe_code, static_mut_refs, clippy::all)]
         pub(crate) mod $name {
             include!(concat!(env!("FUELLABS_FUEL_VM_VERIF_DIR"), "/incrate/vm/", $file));
         }
@@ -42,6 +42,10 @@ vmod!(storage_reads, "c36_storage.rs");
 vmod!(ret, "c34_ret.rs");
 vmod!(misc, "c29_misc.rs");
 vmod!(slots, "c33_storage_slots.rs");
+vmod!(assets, "c27_assets.rs");
+vmod!(dbg, "c32_debugger.rs");
+vmod!(crypto17, "c17_crypto.rs");
+vmod!(init31, "c31_init.rs");
 
 /// Counterexample replay (lib/replay.py): generated concrete-playback tests.
 #[cfg(verif_playback)]
